@@ -127,3 +127,45 @@ func ReservedID(id string) bool {
 	}
 	return strings.Contains(strings.SplitN(id, "--", 2)[0], "-auto")
 }
+
+var (
+	enumOnce sync.Once
+	enums    [][]string
+)
+
+// Enumerations: the closed value sets of the SPDX and CycloneDX libraries (cmd/instr --enumerations: const blocks of
+// string constants - checksum algorithms, relationship types, component types, reference types, ...).
+func Enumerations() [][]string {
+	enumOnce.Do(func() {
+		b, err := os.ReadFile(filepath.Join(os.Getenv("VERIF_DIR"), ".cache", "enumerations.json"))
+		if err != nil || json.Unmarshal(b, &enums) != nil {
+			enums = nil
+		}
+	})
+	return enums
+}
+
+// EnumerationsOf returns the values of every enumeration v belongs to (compared without regard to case), v excluded.
+func EnumerationsOf(v string) []string {
+	seen := map[string]bool{v: true}
+	var out []string
+	for _, e := range Enumerations() {
+		in := false
+		for _, x := range e {
+			if strings.EqualFold(x, v) {
+				in = true
+				break
+			}
+		}
+		if !in {
+			continue
+		}
+		for _, x := range e {
+			if !seen[x] {
+				seen[x] = true
+				out = append(out, x)
+			}
+		}
+	}
+	return out
+}
